@@ -189,6 +189,40 @@ def ob_se_fast_eq_generic(tomo, sysname, m, flag, wmode):
     return FnOb(reals("x", nv, -3.0, 3.0), run, expect_nonlinear=True)
 
 
+def ob_se_direct(tomo, sysname, m, flag):
+    """the constructor + direct-setter route (no option object): weight matrices and data given to the constructor, the model set with
+    set_func_prob_dists_from_standard_qt / set_func_gradient_prob_dists_from_standard_qt: value == reference with THOSE weights,
+    fast == generic (value and gradient), for every x"""
+    d = DIMS[sysname]
+    nv = c03.n_var(TOMO_TYPE[tomo], d, m, flag)
+    qt0, _, sel0, sched0 = build_qt(tomo, sysname, m, flag)
+    sizes = sizes_of(tomo, sysname, m, sel0, sched0)
+    rng = np.random.RandomState(15)
+    qs = [rng.dirichlet(np.ones(s_) * 2.0) for s_ in sizes]
+    Ws = []
+    for s_ in sizes:
+        M = rng.normal(size=(s_, s_))
+        Ws.append(np.ascontiguousarray((M + M.T) / 2 + 1.5 * np.eye(s_)))
+
+    def run(I):
+        from quara.loss_function.weighted_probability_based_squared_error import WeightedProbabilityBasedSquaredError as Gen
+        from quara.loss_function.standard_qtomography_based_weighted_probability_based_squared_error import \
+            StandardQTomographyBasedWeightedProbabilityBasedSquaredError as Fast
+        qt, tmpl, sel, sched = build_qt(tomo, sysname, m, flag)
+        x = vec_of(I, "x", nv)
+        gen = Gen(nv, prob_dists_q=[q.copy() for q in qs], weight_matrices=[W.copy() for W in Ws])
+        fast = Fast(nv, prob_dists_q=[q.copy() for q in qs], weight_matrices=[W.copy() for W in Ws])
+        for L in (gen, fast):
+            L.set_func_prob_dists_from_standard_qt(qt)
+            L.set_func_gradient_prob_dists_from_standard_qt(qt)
+        A, b = qt.calc_matA(), qt.calc_vecB()
+        ref = ref_se(A, b, x, [(1, q) for q in qs], Ws)
+        return [Eq("generic value == weighted squared distance with the constructor's weights", gen.value(x), ref, 1e-7),
+                Eq("fast value == the same", fast.value(x), ref, 1e-7),
+                Eq("fast gradient == generic gradient", fast.gradient(x), gen.gradient(x), 1e-7)]
+    return FnOb(reals("x", nv, -3.0, 3.0), run, expect_nonlinear=True)
+
+
 def ref_cov_weights(q, n, unbiased):
     """documented inverse-covariance weights: inverse of (cov[:-1,:-1] + I / n^(3/2)) embedded in a zero matrix, cov = (diag(q) - q q^T)/n or /(n-1),
     q regularised by replace_prob_dist's rule (entries below 1e-8 set to 1e-8, the excess spread over the others)"""
@@ -338,6 +372,9 @@ def obligations(tier):
         out += specs("C12.se.fast_eq_generic", [{"tomo": "qst", "sysname": "Q1", "m": 0, "flag": flag, "wmode": "custom", "testers": "unbal2"}], with_testers(ob_se_fast_eq_generic), 2)
         for kind in ("re", "re_fast"):
             out += specs("C12.re", [{"tomo": "qst", "sysname": "Q1", "m": 0, "flag": flag, "kind": kind, "weighted": True, "testers": "unbal2"}], with_testers(ob_re), 4)
+    for tomo, s_, m in [("qst", "Q1", 0), ("povmt", "Q1", 3)]:
+        for flag in (True, False):
+            out += specs("C12.se.direct", [{"tomo": tomo, "sysname": s_, "m": m, "flag": flag}], ob_se_direct, 2)
     out += specs("C12.simple_quadratic", [{"n": n} for n in (2, 4)], ob_simple_quadratic, 1)
     return out
 
